@@ -344,7 +344,7 @@ def finish(pid, mod, tier, seed, cfgs, results, t0, extra_assumptions=()):
         lines.append(f"  fingerprint={v['fingerprint']} :: {v['detail']}")
     harness_err = bool(errors or nonrepro or valfail)
     wall = round(time.time() - t0, 2)
-    transitions = agg["branch_queries"] + agg["unsat"] + agg["sat"] + agg["unknown"]
+    transitions = agg["branch_queries"] + agg["unsat"] + agg["sat"] + agg["unknown"] + fast
     evidence = {
         "property_id": pid,
         "tier": tier,
@@ -357,7 +357,8 @@ def finish(pid, mod, tier, seed, cfgs, results, t0, extra_assumptions=()):
             "samples": samples or [{"note": "no sample recorded"}],
             "explanation": (
                 "states = feasible control paths of the real functions executed on z3 terms; "
-                "transitions = solver queries (branch feasibility + obligations); "
+                "transitions = z3 decisions: branch feasibility queries + obligation queries + obligations closed by the "
+                "simplifier normal form with congruence (split in coverage.queries / obligations_closed_by_normal_form); "
                 "traces_validated = path models re-run through the untouched float code and compared "
                 "with the symbolic output terms"
             ),
